@@ -199,9 +199,9 @@ theorem ed2_idempotent (s : Screen) :
     · funext y x
       by_cases h : (decide (0 ≤ y) && decide (y < s.lines) && decide (x < s.columns)) = true <;> simp_all
 
+open Gen in
 /-- CUP l c ; CUP l c = CUP l c in every state: with margins or without, in origin mode or not, ignored
     (row outside the region in origin mode) or not -/
-open Gen in
 theorem cup_idempotent (s : Screen) (l c : Option Nat) :
     cursorPosition (cursorPosition s l c) l c = cursorPosition s l c := by
   cases hm : s.margins with
